@@ -50,6 +50,9 @@ func runC15(c *Ctx, tier string) {
 	namesToMap(c, r, "names-validated")
 	c13FilterUses(c, r)
 	c13NameList(c, r, BuildCensus(c))
+	// "-config together with a selection flag": the registry Filter returns carries
+	// the configuration set on the global registry before (Filter's tables, C08)
+	filterChecks(c, r, false)
 	r.Finish()
 }
 
